@@ -1545,29 +1545,32 @@ class Collection(object):
             indexed = set()
             indexed_list = []
             documents_gen = self._store.documents
+            partial_filter = index_dict.get('partialFilterExpression')
             for doc in documents_gen:
                 index = []
+                missing = 0
                 for key, unused_order in index_list:
                     try:
                         index.append(helpers.get_value_by_dot(doc, key))
                     except KeyError:
-                        if is_sparse:
-                            continue
+                        missing += 1
                         index.append(None)
-                if is_sparse and not index:
+                if is_sparse and missing == len(index):
+                    continue
+                if partial_filter is not None and not filter_applies(partial_filter, doc):
                     continue
                 index = tuple(index)
                 try:
                     if index in indexed:
                         # Need to throw this inside the generator so it can clean the locks
                         documents_gen.throw(
-                            DuplicateKeyError('E11000 Duplicate Key Error', 11000), None, None)
+                            DuplicateKeyError('E11000 Duplicate Key Error', 11000))
                     indexed.add(index)
-                except TypeError as err:
+                except TypeError:
                     # index is not hashable.
                     if index in indexed_list:
                         documents_gen.throw(
-                            DuplicateKeyError('E11000 Duplicate Key Error', 11000), None, err)
+                            DuplicateKeyError('E11000 Duplicate Key Error', 11000))
                     indexed_list.append(index)
 
         self._store.create_index(index_name, index_dict)
